@@ -115,6 +115,85 @@ theorem C19_location_valid (file : List Char) (lx : Lexer)
   obtain ⟨b, e, h1, h2⟩ := lookUpSpan_ok file sp hle hb
   exact ⟨sp, b, e, hr, h1, h2⟩
 
+/-! ### closure: everything grass builds from lexer spans
+
+  Grass creates `Span` values only through the lexer calls above, through `file.span.subspan(0, 0)`
+  (the `empty_span` of lib.rs:134/169 and visitor.rs:913), by re-lexing text against a span it
+  already has (`new_from_string`, `new_from_detached_string`) and by `Span::merge`; everything else
+  copies spans.  (`subspan` occurs nowhere else in crates/compiler/src.) -/
+
+/-- Spans of `file` obtainable by those operations, to any depth. -/
+inductive Reachable (file : List Char) : Span → Prop where
+  | fileCall (c : Nat) (r : Option Span) (hc : SpanCall ((Lexer.ofFile file).setCursor c) r)
+      (sp : Span) (hr : r = some sp) : Reachable file sp
+  | relexCall (s : List Char) (entire : Span) (he : Reachable file entire) (c : Nat)
+      (r : Option Span)
+      (hc : SpanCall ((Lexer.ofString .whenTextDiffers file s entire).setCursor c) r)
+      (sp : Span) (hr : r = some sp) : Reachable file sp
+  | detachedCall (s : List Char) (entire : Span) (he : Reachable file entire) (c : Nat)
+      (r : Option Span) (hc : SpanCall ((Lexer.ofDetached s entire).setCursor c) r)
+      (sp : Span) (hr : r = some sp) : Reachable file sp
+  | empty : Reachable file ⟨0, 0⟩
+  | merge (a b : Span) (ha : Reachable file a) (hb : Reachable file b) : Reachable file (a.merge b)
+
+theorem reachable_ok (file : List Char) (sp : Span) (h : Reachable file sp) :
+    (sp.lo ≤ sp.hi ∧ sp.hi ≤ byteLen file) ∧ sp.OnBoundaries file := by
+  induction h with
+  | fileCall c r hc sp hr =>
+    have hl : LexerOf .whenTextDiffers file ((Lexer.ofFile file).setCursor c) := .ofFile c
+    obtain ⟨sp', e, h1, h2, _, _⟩ := C19_span_in_bounds _ file _ hl r hc
+    rw [hr] at e; cases e
+    exact ⟨⟨h1, h2⟩, C19_span_on_char_boundary file _ hl r hc sp hr⟩
+  | relexCall s entire he c r hc sp hr ih =>
+    have hl : LexerOf .whenTextDiffers file ((Lexer.ofString .whenTextDiffers file s entire).setCursor c) :=
+      .ofString s entire c ih.1 ih.2
+    obtain ⟨sp', e, h1, h2, _, _⟩ := C19_span_in_bounds _ file _ hl r hc
+    rw [hr] at e; cases e
+    exact ⟨⟨h1, h2⟩, C19_span_on_char_boundary file _ hl r hc sp hr⟩
+  | detachedCall s entire he c r hc sp hr ih =>
+    have hl : LexerOf .whenTextDiffers file ((Lexer.ofDetached s entire).setCursor c) :=
+      .ofDetached s entire c ih.1 ih.2
+    obtain ⟨sp', e, h1, h2, _, _⟩ := C19_span_in_bounds _ file _ hl r hc
+    rw [hr] at e; cases e
+    exact ⟨⟨h1, h2⟩, C19_span_on_char_boundary file _ hl r hc sp hr⟩
+  | empty => exact ⟨⟨Nat.le_refl _, Nat.zero_le _⟩, by simp [Span.OnBoundaries, isBoundary_zero]⟩
+  | merge a b _ _ iha ihb =>
+    refine ⟨?_, merge_onBoundaries a b file iha.2 ihb.2⟩
+    have := iha.1; have := ihb.1
+    simp only [Span.merge]; omega
+
+/-- **Every span grass can build for a file — lexer calls on the file, on text re-lexed against
+    any span it already has (nested to any depth), the empty span, and any merges of those — is
+    looked up by codemap without panic, and the reported location satisfies P̂.** -/
+theorem C19_reachable_span_located (file : List Char) (sp : Span) (h : Reachable file sp) :
+    ∃ b e, lookUpSpan file sp = some (b, e) ∧ spanLocOk file b e = true := by
+  obtain ⟨⟨h1, _⟩, h2⟩ := reachable_ok file sp h
+  exact lookUpSpan_ok file sp h1 h2
+
+-- a non-trivial reachable span: the span of `ü]` in `a[ü] {}` merged with a span obtained by
+-- re-lexing other text against it
+example : Reachable ['a', '[', 'ü', ']', ' ', '{', '}'] ⟨0, 5⟩ :=
+  have h1 : Reachable ['a', '[', 'ü', ']', ' ', '{', '}'] ⟨2, 5⟩ :=
+    .fileCall 4 _ (.from 2) _ (by decide +kernel)
+  have h2 : Reachable ['a', '[', 'ü', ']', ' ', '{', '}'] ⟨0, 1⟩ :=
+    .fileCall 0 _ .current _ (by decide +kernel)
+  have h3 : Reachable ['a', '[', 'ü', ']', ' ', '{', '}'] ⟨2, 5⟩ :=
+    .relexCall ['x', 'y'] ⟨2, 5⟩ h1 1 _ .current _ (by decide +kernel)
+  .merge _ _ h2 h3
+
+/-
+  C19_full (the location half of the property, for all of grass):
+      for every input on which compilation fails with a (message, span) error, the span is
+      `Reachable file` for the file it is looked up in.
+  What the theorems above prove is everything *after* that: reachable spans are in bounds, on
+  character boundaries, located without panic, with a location satisfying `spanLocOk`.  That
+  every error site only uses reachable spans of ONE file is established by reading (the only
+  `subspan` calls are lexer.rs:52 and the three `subspan(0, 0)`; spans are otherwise copied or
+  merged) and checked by the correspondence run, not proved: in particular a `merge` of spans of
+  two different files (selector/list.rs:145, selector/extend/merged.rs:27) would leave the model
+  (codemap positions are global; the model's are file-relative).
+-/
+
 /-! ## The renderer -/
 
 /-- **The rendered error starts with `Error: <message>` and a newline**, in Unicode and in ASCII
